@@ -157,16 +157,15 @@ Proof.
   eexists. split; [vm_compute; reflexivity|]. split; [vm_compute; reflexivity | vm_compute; intro H; discriminate H].
 Qed.
 
-(* not part of the statement but of the protocol: every error after the temp
-   file was created (here: the evaluation fails) leaves the temp file behind,
-   because the deferred FinishWriteInPlace only runs when cmdError is nil *)
-Theorem C12_temp_removed_refuted : exists cfg sch pl old s,
-  run cfg sch pl old = Exited 1 s /\ fs_target (s_fs s) = Some old /\ fs_temp (s_fs s) <> None.
-Proof.
-  exists (mkCfg false FmNone), (sched_of []), (mkPlan true Done [] Failed false), w_old.
-  eexists. split; [vm_compute; reflexivity|]. split; [vm_compute; reflexivity | vm_compute; intro H; discriminate H].
-Qed.
-Print Assumptions C12_temp_removed_refuted.
+(* not part of the statement but of the protocol: at every exit (status 0, 1
+   or 2) the temp file is gone, unless a step of the finishing / clean-up phase
+   itself (close, remove, rename, fallback copy, or an error injected at one of
+   their hook points) does not go through.  (Every error used to leave the temp
+   file behind; fixed in /repo d27ead5.) *)
+Theorem C12_temp_removed : forall cfg sch pl old c s,
+  finish_clean sch -> run cfg sch pl old = Exited c s -> fs_temp (s_fs s) = None.
+Proof. exact temp_removed. Qed.
+Print Assumptions C12_temp_removed.
 
 (* non-vacuity: a successful run on the same device exits 0 with the new file
    and the old mode; the hypotheses of the atomicity theorem hold for it *)
